@@ -7,8 +7,8 @@ usage: mutants.py [id-prefix ...]      results -> /verif/seeded/self/RESULTS.jso
 """
 import json, os, subprocess, sys, time
 
-REPO = "/repo"
-ROOT = os.path.dirname(os.path.dirname(os.path.abspath(__file__)))
+REPO = os.environ.get("MUT_REPO", "/repo")
+ROOT = os.environ.get("MUT_ROOT", os.path.dirname(os.path.dirname(os.path.abspath(__file__))))
 
 M = []
 def m(mid, prop, file, old, new, note=""):
